@@ -706,6 +706,34 @@ def make_form_any(n, ctype, framing, t):
     return checked(q)
 
 
+LIMIT_FORM = b"a=1&bb=22&c=3"
+LIMIT_PAIRS = [("a", "1"), ("bb", "22"), ("c", "3")]
+
+
+def make_form_limit():
+    """a well-formed urlencoded form around the in-memory limit: answered 2xx with every pair complete, or refused with
+    a 4xx - never 2xx with part of the form"""
+    def q(t: int, chunked: bool, two: bool):
+        assume(1 <= t <= len(LIMIT_FORM) + 2)
+        pieces = [LIMIT_FORM[:5], LIMIT_FORM[5:]] if two else [LIMIT_FORM]
+        sent = Sent(LIMIT_FORM, b"", b"")
+        stream, env = framed(pieces, sent, "chunked" if chunked else "cl", FORM_CTYPE)
+        res = serve("forms", stream, t, env)
+        fail, cls = judge_status(res)
+        if fail:
+            return fail, observed(res)
+        if cls == "2":
+            got = sorted((k, v) for k, v in (res.seen[0] if res.seen else []))
+            if got != sorted(LIMIT_PAIRS):
+                return "form of %d bytes, max_memfile_size %d, %s: answered %s with the fields %r, sent %r" % (
+                    len(LIMIT_FORM), t, "chunked" if chunked else "Content-Length", res.calls[0], got, LIMIT_PAIRS), observed(res)
+            cover("complete")
+        else:
+            cover("refused")
+        return None, observed(res)
+    return checked(q)
+
+
 # ================================================================ no hang: long header lines / content types
 # "never a hang": every regular expression on the body path (REGEX_SITES) is run by a backtracking interpreter of its
 # current parse tree that counts steps; more than 50*L*L+1000 steps on a text of L characters is the failure (O1h).
@@ -1079,6 +1107,9 @@ def queries(tier):
     forms = [(3, FORM_CTYPE, "cl", 64), (2, FORM_CTYPE, "chunked", 64), (3, "text/plain", "cl", 2)]
     if T:
         forms += [(3, FORM_CTYPE, "chunked", 64), (3, "", "cl", 64), (4, FORM_CTYPE, "cl", 3)]
+    add("form/limit", make_form_limit(), "the urlencoded form %r, max_memfile_size every value 1..%d, Content-Length or chunked "
+        "framing (one or two pieces): 2xx with every pair complete or 4xx" % (LIMIT_FORM, len(LIMIT_FORM) + 2), 200,
+        ["complete", "refused"], "form/limit")
     for n, ctype, framing, t in forms:
         add("form/any/%s/%s/len%d/t%d" % (ctype.split("/")[-1] or "none", framing, n, t), make_form_any(n, ctype, framing, t),
             "every byte string of length <= %d as body with Content-Type %r, %s framing, max_memfile_size %d, handler reads "
